@@ -91,3 +91,24 @@ package common
 //@   loop 0: invariant forall k int :: 0 <= k && 2*k + 1 < len(points) && 2*k < i ==> points[2*k] == numX(p, old(points[2*k]), old(points[2*k+1])) / den(p, old(points[2*k]), old(points[2*k+1])) && points[2*k+1] == numY(p, old(points[2*k]), old(points[2*k+1])) / den(p, old(points[2*k]), old(points[2*k+1]))
 //@   loop 0: invariant forall j int :: i <= j && j < len(points) ==> points[j] == old(points[j])
 //@   loop 0: decreases len(points) - i
+
+// ---------------------------------------------------------------- BitSource (C06)
+//@ pred wfBS(s *BitSource) = 0 <= s.byteOffset && s.byteOffset <= len(s.bytes) && 0 <= s.bitOffset && s.bitOffset <= 7 && (s.byteOffset == len(s.bytes) ==> s.bitOffset == 0)
+//@ spec func availBS(s *BitSource) int = 8 * (len(s.bytes) - s.byteOffset) - s.bitOffset
+
+//@ func (this *BitSource) Available() (r int)
+//@   property C06
+//@   ensures r == availBS(this)
+//@   modifies nothing
+
+//@ func (this *BitSource) ReadBits(numBits int) (r int, e error)
+//@   property C06 C01
+//@   requires wfBS(this)
+//@   ensures wfBS(this) && this.bytes == old(this.bytes)
+//@   ensures (e == nil) == (1 <= numBits && numBits <= 32 && numBits <= old(availBS(this)))
+//@   ensures e == nil ==> availBS(this) == old(availBS(this)) - numBits
+//@   ensures e != nil ==> this.byteOffset == old(this.byteOffset) && this.bitOffset == old(this.bitOffset)
+//@   modifies this.byteOffset, this.bitOffset
+//@   loop 0: invariant wfBS(this) && this.bitOffset == 0 && this.bytes == old(this.bytes) && 0 <= numBits && numBits <= availBS(this)
+//@   loop 0: invariant availBS(this) - numBits == old(availBS(this)) - old(numBits) && 1 <= old(numBits) && old(numBits) <= 32 && old(numBits) <= old(availBS(this))
+//@   loop 0: decreases numBits
